@@ -225,3 +225,58 @@ Proof.
   destruct (le16_roundtrip (N.of_nat i) Hi) as [_ [_ ->]]. rewrite Nat2N.id. apply sd_encode_decode, E.
 Qed.
 End DictProofs.
+
+(** * The file header and the block positions *)
+Lemma un32_le32 n : n < 4294967296 -> match le32 n with [a; b; c; d] => un32 a b c d = n | _ => False end.
+Proof.
+  intros H. unfold le32, un32.
+  pose proof (N.div_mod n 256 ltac:(discriminate)) as H1.
+  pose proof (N.div_mod (n / 256) 256 ltac:(discriminate)) as H2.
+  pose proof (N.div_mod (n / 256 / 256) 256 ltac:(discriminate)) as H3.
+  rewrite !N.div_div in H2, H3 by discriminate. change (256 * 256) with 65536 in *.
+  rewrite N.div_div in H3 by discriminate. change (65536 * 256) with 16777216 in *.
+  lia.
+Qed.
+Lemma un16_le16 n : match le16 n with [a; b] => a + 256 * b = n | _ => False end.
+Proof. unfold le16. pose proof (N.div_mod n 256 ltac:(discriminate)). lia. Qed.
+
+Lemma bpos_roundtrip b bs rest : bpos_ser b = Some bs -> bpos_unser (bs ++ rest) = Some (b, rest).
+Proof.
+  destruct b as [names off size]. unfold bpos_ser. cbn [bp_names bp_off bp_size].
+  destruct (N.ltb_spec (N.of_nat (List.length names)) 65536) as [H1|]; [|discriminate].
+  destruct (N.ltb_spec off 4294967296) as [H2|]; [|discriminate].
+  destruct (N.ltb_spec size 65536) as [H3|]; [|discriminate]. cbn [andb]. intros [= <-].
+  unfold bpos_unser. pose proof (un16_le16 (N.of_nat (List.length names))) as E1. pose proof (un32_le32 off H2) as E2.
+  pose proof (un16_le16 size) as E3. unfold le16, le32 in *. cbn [app]. rewrite E1, Nat2N.id.
+  rewrite <- !app_assoc. rewrite app_length. rewrite (proj2 (Nat.leb_le _ _)) by lia.
+  rewrite skipn_app, skipn_all, Nat.sub_diag. cbn [app skipn]. rewrite E2, E3.
+  rewrite firstn_app, firstn_all, Nat.sub_diag. cbn [firstn]. rewrite app_nil_r. reflexivity.
+Qed.
+
+(** the header reads back as the list of (class names, position, size) *)
+Theorem header_roundtrip version positions0 bs rest : header_ser version positions0 = Some bs ->
+  header_unser version (bs ++ rest) = Some (positions0, rest).
+Proof.
+  unfold header_ser. destruct (N.ltb_spec version 256) as [Hv|]; [|discriminate].
+  destruct (N.ltb_spec (N.of_nat (List.length positions0)) 4294967296) as [Hn|]; [|discriminate]. cbn [andb].
+  destruct (cat_all (map bpos_ser positions0)) as [body|] eqn:Eb; [|discriminate]. cbn [cat]. intros [= <-].
+  pose proof (un32_le32 _ Hn) as E. unfold le32 in *. unfold MAGIC. cbn [app]. unfold header_unser.
+  rewrite N.eqb_refl, E, Nat2N.id.
+  exact (rd_n_ok bpos_ser bpos_unser (fun _ => True) (fun x b r _ Hs => bpos_roundtrip x b r Hs) positions0 body rest (Forall_True _) Eb).
+Qed.
+
+(** reading `size` bytes at `off` for every position written by serialise gives back every block's data *)
+Lemma slice_app pre data post : slice (pre ++ data ++ post) (N.of_nat (List.length pre)) (N.of_nat (List.length data)) = data.
+Proof.
+  unfold slice. rewrite !Nat2N.id, skipn_app, skipn_all, Nat.sub_diag. cbn [app skipn].
+  rewrite firstn_app, firstn_all, Nat.sub_diag. cbn [firstn]. apply app_nil_r.
+Qed.
+Theorem positions_slices blocks : forall pre post,
+  Forall2 (fun p blk => slice (pre ++ List.concat (map snd blocks) ++ post) (bp_off p) (bp_size p) = snd blk /\ bp_names p = fst blk)
+          (positions (N.of_nat (List.length pre)) blocks) blocks.
+Proof.
+  induction blocks as [|[names data] blocks IH]; intros pre post; cbn [positions map List.concat]; constructor.
+  - cbn [bp_off bp_size bp_names fst snd]. split; [|reflexivity]. rewrite <- app_assoc. apply slice_app.
+  - specialize (IH (pre ++ data) post). rewrite app_length, Nat2N.inj_add in IH. cbn [snd].
+    rewrite <- !app_assoc in IH. rewrite <- app_assoc. exact IH.
+Qed.
